@@ -943,7 +943,7 @@ def eval_dyad_rotate(a, b, backend):
         return b
     j = isinstance(b, str)
     b = backend.str_to_chr_arr(b) if j else b
-    r = bknp.roll(b, a)
+    r = bknp.roll(b, a, axis=0)
     return "".join(r) if j else r
 
 
@@ -976,10 +976,8 @@ def eval_dyad_split(a, b, backend):
         if a[0] >= len(b):
             r = [b]
         else:
-            k = len(b) // a[0]
-            if (k*a[0]) < len(b):
-                k += 1
-            r = bknp.array_split(b, k)
+            # segments of a[0] elements; only the last one may be shorter
+            r = [b[q:q+a[0]] for q in range(0, len(b), a[0])]
     else:
         p, q = 0, 0
         r = []
